@@ -230,6 +230,23 @@ def moved_scenario(sid, rng, kinds=("moved",)):
     return {"id": sid, "role": "", "steps": steps}
 
 
+def split_pair_scenario(sid, rng, n=6):
+    """Two (or three) clients each have the first part of a request pending, then all send the rest, so that the proxy
+    completes several split requests in one round of its poller; each must arrive whole at the node owning its key's slot."""
+    steps = [step([st(op="topo", desc=default_desc(), kind=""), st(op="refresh")])]
+    for k in range(n):
+        cs = ["c1", "c2", "c3"][:rng.choice([2, 2, 3])]
+        hold = [dict(st(op="send", c=c, reqs=[req(rng.choice(["set", "get", "set"]), [rng.randrange(16384)])], kind="hold"), cuts=[rng.randint(3, 24)]) for c in cs]
+        steps.append(step(hold, settle=False))
+        steps.append(step([], settle=False))
+        rng.shuffle(cs)
+        steps.append(step([st(op="sendrest", c=c) for c in cs], settle=False))
+        steps.append(step([]))
+        steps += drain(1, 6)
+    steps += drain(2, 10)
+    return {"id": sid, "role": "", "steps": steps}
+
+
 def removal_scenario(sid):
     """A request in flight on a silent node while the topology stops listing that node (C15)."""
     cat = {c[0]: c for c in catalogue()}
@@ -464,6 +481,8 @@ def run_generic(pid, tier, seed):
                 # every supported command once: routed by role according to the command table
                 for k in range(2 if q else 12):
                     scs.insert(k, allcommands_scenario("allcommands-%d" % k, rng, upper=bool(k % 2)))
+                for k in range(3 if q else 40):
+                    scs.insert(k, split_pair_scenario("split-pair-%d" % k, rng))
                 sub = scs[:len(cat)] if q else scs
                 groups.append((dict(CFG, disableSlave=True), sub[:12 if q else 60], "topo-noslave", {"DisableSlave": "TRUE"}))
                 groups.append((dict(CFG, password="pw"), sub[:12 if q else 60], "topo-pw", {"HasPassword": "TRUE"}))
